@@ -1525,6 +1525,11 @@ func (s *ImmuStore) fetchVLog(vLogID byte) (appendable.Appendable, error) {
 		return s.vLogs[0].vLog, nil
 	}
 
+	if _, ok := s.vLogs[vLogID-1]; !ok {
+		// s.vLogs is fixed after Open, so this lookup does not need the lock
+		return nil, fmt.Errorf("%w: value log %d does not exist", ErrCorruptedData, vLogID)
+	}
+
 	s.vLogsCond.L.Lock()
 	defer s.vLogsCond.L.Unlock()
 
